@@ -719,6 +719,16 @@ Proof.
   apply psig_id in E1. apply psig_id in E2. congruence.
 Qed.
 
+Lemma nodup_map_inj {A B} (g : A -> B) (l : list A) a b :
+  NoDup (map g l) -> In a l -> In b l -> g a = g b -> a = b.
+Proof.
+  induction l as [|c r IH]; simpl; [tauto|].
+  intros Hn Ha Hb He. inversion Hn as [|? ? Hc Hr]; subst.
+  destruct Ha as [->|Ha], Hb as [->|Hb]; auto.
+  - exfalso. apply Hc. rewrite He. apply in_map; exact Hb.
+  - exfalso. apply Hc. rewrite <- He. apply in_map; exact Ha.
+Qed.
+
 Section Invariant.
 (* K: any registry predicate that depends on the pools' signatures only and implies kinds_ok
    (instantiated with kinds_ok, and with kinds_ok /\ pools_disjoint) *)
@@ -1012,7 +1022,7 @@ Proof.
   assert (Hs1 : forall a4' b4', sess_ok r1
             (mkSess (s_id s0) false (s_prof4 s0) (s_prof6 s0) (s_mac s0) true true (s_vrf s0) (s_ov4 s0)
                     (s_ov6 s0) (s_ovd s0) a4' (s_a6 s0) (s_ad s0) None None (s_told s0) false
-                    b4' (s_b6 s0) (s_bd s0))).
+                    b4' (s_b6 s0) (s_bd s0) (s_x s0))).
   { intros a4' b4'. apply ipoe_sess_ok; cbn; auto. }
   cbv zeta in H. revert H.
   destruct (if ok then oaddr a4 else None) as [x|] eqn:Ex.
@@ -1283,6 +1293,111 @@ Proof.
   unfold inv; cbn [st_reg st_sess]. repeat split; auto; try apply A. rewrite D. exact Hnd.
 Qed.
 
+(* ---------------------------------------------------------------- PPPoE: DHCPv6 over PPP *)
+Lemma resolve6_ok s r r' c6 cd res :
+  rinv r -> In (r', c6, cd, res) (resolve6 Repaired s r) ->
+  step_ok anyone r r' /\
+  (forall a6 ad k6 kd, res = Some (a6, ad, k6, kd) ->
+     oo r' (s_vrf s) (s_id s) F6 (oitem a6) /\ oo r' (s_vrf s) (s_id s) FD ad).
+Proof.
+  intros Hr. unfold resolve6. destruct (s_prof6 s) as [pf|].
+  2:{ intros [E|[]]; inversion E; subst. split; [apply step_ok_refl|intros; discriminate]. }
+  unfold bindl. intros H. apply in_flat_map in H. destruct H as ([[[r1 a6] k6] ok6] & Hc & H).
+  destruct (acquire_ok F6 _ _ _ _ _ _ _ _ _ _ Hr (fun _ i Hi => oitem_kind _ _ Hi) Hc) as (A & B & C).
+  destruct (rinv_step _ _ _ Hr A) as [Hr1 Hp1].
+  destruct ok6; cbn [negb] in H.
+  2:{ destruct H as [E|[]]; inversion E; subst. split; [exact A|intros; discriminate]. }
+  apply in_map_iff in H. destruct H as ([[[r2 ad] kd] okd] & E & Hcd).
+  destruct (acquire_ok FD _ _ _ _ _ _ _ _ _ _ Hr1 (fun Hn => not_fd_fd _ Hn) Hcd) as (A2 & B2 & _).
+  destruct (rinv_step _ _ _ Hr1 A2) as [Hr2 Hp2].
+  assert (A12 : step_ok anyone r r2) by (eapply step_ok_trans; eauto).
+  destruct okd; cbn [negb] in E.
+  2:{ inversion E; subst. split; [exact A12|intros; discriminate]. }
+  assert (O6 : oo r2 (s_vrf s) (s_id s) F6 (oitem (oaddr a6))).
+  { apply oo_pres with (P := anyone) (r := r1); [exact Hp2|exact I|].
+    apply oo_oaddr; [apply C; discriminate|apply B; reflexivity]. }
+  assert (OD : oo r2 (s_vrf s) (s_id s) FD ad) by (intros y Hy; apply B2; auto).
+  destruct a6 as [i6|]; [|destruct ad as [id'|]]; inversion E; subst; (split; [exact A12|]);
+    intros a6' ad' k6' kd' Hres; inversion Hres; subst; auto.
+Qed.
+
+Lemma ppp_sess_ok r s' :
+  oo r (s_vrf s') (s_id s') F4 (oitem (s_a4 s')) -> oo r (s_vrf s') (s_id s') F6 (oitem (s_a6 s')) ->
+  oo r (s_vrf s') (s_id s') FD (s_ad s') -> oo r (s_vrf s') (s_id s') F4 (oitem (s_told s')) ->
+  oo r (s_vrf s') (s_id s') F6 (oitem (s_b6 s')) -> oo r (s_vrf s') (s_id s') FD (s_bd s') -> sess_ok r s'.
+Proof. intros A B C D E F _. repeat split; auto. Qed.
+
+Lemma step_ps_inv st s isreq st' o :
+  inv st -> In s (st_sess st) -> s_live s = true -> In (st', o) (step_ps Repaired st s isreq) -> inv st'.
+Proof.
+  intros Hinv Hin Hl. pose proof Hinv as (Hr & _). destruct (inv_sess _ _ Hinv Hin) as [Hs Ht].
+  unfold step_ps. intros H. apply in_map_iff in H. destruct H as ([[[r2 c6] cd] res] & E & Hc).
+  destruct (resolve6_ok _ _ _ _ _ _ Hr Hc) as [A B]. destruct (rinv_step _ _ _ Hr A) as [Hr2 Hp2].
+  assert (Hs2 : sess_ok r2 s) by (eapply sess_ok_pres with (P := anyone); [exact Hp2|exact I|exact Hs]).
+  destruct (Hs2 Hl) as (X & OT & O6 & OD).
+  assert (Hfin : forall x a6' ad' pr',
+            oo r2 (s_vrf s) (s_id s) F6 (oitem a6') -> oo r2 (s_vrf s) (s_id s) FD ad' ->
+            (s_ppp s = true -> oo r2 (s_vrf s) (s_id s) F4 (oitem (s_a4 s))) ->
+            inv (mkState r2 (put_sess (with_x s x a6' ad') (st_sess st)) pr')).
+  { intros x a6' ad' pr' Y6 YD Y4.
+    apply inv_update with (s := s); [exact Hinv|exact Hin|reflexivity|apply anyone_other; exact A| |exact Ht].
+    intros _ _. cbn. split; [intros Hp; repeat split; auto|repeat split; auto]. }
+  assert (Y4 : s_ppp s = true -> oo r2 (s_vrf s) (s_id s) F4 (oitem (s_a4 s))) by (intros Hp; apply (X Hp)).
+  assert (Yk6 : s_ppp s = true -> oo r2 (s_vrf s) (s_id s) F6 (oitem (s_a6 s))) by (intros Hp; apply (X Hp)).
+  assert (Ykd : s_ppp s = true -> oo r2 (s_vrf s) (s_id s) FD (s_ad s)) by (intros Hp; apply (X Hp)).
+  destruct (s_ppp s) eqn:Ep.
+  2:{ (* not a PPPoE session: the recorded fields are not constrained *)
+      destruct res as [[[[a6 ad] k6] kd]|]; [destruct (prov6_resolved _ _ _ _ _ _ _ _) as [q' [|]]; [destruct isreq|]|];
+        inversion E; subst;
+        (apply inv_update with (s := s); [exact Hinv|exact Hin|reflexivity|apply anyone_other; exact A| |exact Ht]);
+        intros _ _; cbn; (split; [intros Hp; rewrite Ep in Hp; discriminate|repeat split; auto]). }
+  destruct res as [[[[a6 ad] k6] kd]|].
+  - destruct (B _ _ _ _ eq_refl) as [N6 ND].
+    destruct (prov6_resolved _ _ _ _ _ _ _ _) as [q' [|]]; [destruct isreq|]; inversion E; subst; apply Hfin; auto.
+  - inversion E; subst. apply Hfin; auto.
+Qed.
+
+Lemma step_pr_inv st s st' o :
+  inv st -> In s (st_sess st) -> s_live s = true -> In (st', o) (step_pr Repaired st s) -> inv st'.
+Proof.
+  intros Hinv Hin Hl. pose proof Hinv as (Hr & _). destruct (inv_sess _ _ Hinv Hin) as [Hs Ht].
+  unfold step_pr, bindl. intros H. apply in_flat_map in H. destruct H as ([[[r2 c6] cd] res] & Hc & H).
+  destruct (resolve6_ok _ _ _ _ _ _ Hr Hc) as [A _]. destruct (rinv_step _ _ _ Hr A) as [Hr2 Hp2].
+  assert (Hs2 : sess_ok r2 s) by (eapply sess_ok_pres with (P := anyone); [exact Hp2|exact I|exact Hs]).
+  destruct (Hs2 Hl) as (X & OT & _ & _).
+  destruct (prov6_release Repaired (p6 (st_prov st)) r2 (s_mac s) (s_id s)) as [q1 r3] eqn:E6.
+  apply in_flat_map in H. destruct H as (r4 & H4 & H). apply in_map_iff in H. destruct H as (r5 & E & H5).
+  pose proof (prov6_release_ok _ _ _ _ _ _ E6) as A3. pose proof (prov6_release_keeps4 _ _ _ _ _ _ _ E6) as K3.
+  assert (A4 : step_ok (other_than (s_id s)) r3 r4).
+  { eapply rel_item_ok with (x := oitem (s_a6 s)). destruct (s_a6 s); exact H4. }
+  assert (F4' : frame F6 r3 r4).
+  { destruct (s_a6 s); [eapply release_ip_frame; exact H4|destruct H4 as [<-|[]]; apply frame_refl]. }
+  assert (A5 : step_ok (other_than (s_id s)) r4 r5) by (eapply rel_item_ok; exact H5).
+  assert (F5 : frame FD r4 r5).
+  { destruct (s_ad s); [eapply release_ip_frame; exact H5|destruct H5 as [<-|[]]; apply frame_refl]. }
+  assert (A05 : step_ok (other_than (s_id s)) (st_reg st) r5).
+  { eapply step_ok_trans; [apply anyone_other; exact A|]. eapply step_ok_trans; [exact A3|].
+    eapply step_ok_trans; eauto. }
+  assert (Keep : forall y, oo r2 (s_vrf s) (s_id s) F4 y -> oo r5 (s_vrf s) (s_id s) F4 y).
+  { intros y Ho z Hz. apply F5; [discriminate|]. apply F4'; [discriminate|]. apply K3. apply Ho; exact Hz. }
+  inversion E; subst; clear E.
+  apply inv_update with (s := s); [exact Hinv|exact Hin|reflexivity|exact A05| |exact Ht].
+  intros _ _. cbn. split; [intros Hp; destruct (X Hp) as (X4 & _); repeat split; auto using oo_none|].
+  repeat split; auto using oo_none.
+Qed.
+
+(* a registry change on behalf of a session that has ended *)
+Lemma inv_reg_dead st s r' pr' :
+  inv st -> In s (st_sess st) -> s_live s = false -> step_ok (other_than (s_id s)) (st_reg st) r' ->
+  inv (mkState r' (st_sess st) pr').
+Proof.
+  intros (Hr & Hnd & Hs & Ht) Hin Hl Hstep. destruct (rinv_step _ _ _ Hr Hstep) as [Hr' Hp].
+  unfold inv; cbn [st_reg st_sess]. split; [exact Hr'|split; [exact Hnd|split; [|exact Ht]]].
+  apply Forall_forall. intros t Hti. destruct (N.eq_dec (s_id t) (s_id s)) as [E|Hn].
+  - assert (t = s) by (eapply nodup_map_inj; eauto). subst t. intros Hl'. congruence.
+  - eapply sess_ok_pres; [exact Hp|exact Hn|eapply Forall_forall in Hs; eauto].
+Qed.
+
 (* a registry change on behalf of an id that no local session has *)
 Lemma inv_reg_step st r' pr' sid :
   inv st -> find_sess sid st = None -> step_ok (other_than sid) (st_reg st) r' ->
@@ -1299,7 +1414,7 @@ Qed.
 Lemma step_inv st o st' ot : inv st -> In (st', ot) (step Repaired st o) -> inv st'.
 Proof.
   intros Hinv. unfold step, skip.
-  destruct o as [sid vrf s4 s6 spd o4 o6 od|sid a|sid|isreq bind rq sid vrf s4 o4|isreq sid vrf s6 spd o6 od|sid|sid| |sid|sid|sid|sid vrf s4 o4 s6 spd o6 od|sid|hf key hx sid|hf key hx sid];
+  destruct o as [sid vrf s4 s6 spd o4 o6 od|sid a|sid|isreq bind rq sid vrf s4 o4|isreq sid vrf s6 spd o6 od|sid|sid| |sid|sid|sid|sid vrf s4 o4 s6 spd o6 od|sid|hf key hx sid|hf key hx sid|isreq sid|sid|sid];
     try (apply step_restart_inv; exact Hinv);
     destruct (find_sess sid st) as [s|] eqn:Ef;
     try (intros [E|[]]; inversion E; subst; exact Hinv);
@@ -1343,6 +1458,18 @@ Proof.
     eapply step_ok_weaken; [|eapply reserve_named_ok; eauto]. intros; exact I.
   - intros H. apply in_map_iff in H. destruct H as (r' & E & Hc). inversion E; subst.
     eapply inv_reg_step; [exact Hinv|exact Ef|]. eapply release_named_ok; exact Hc.
+  - destruct (s_ppp s); cbn [andb]; [|intros [E|[]]; inversion E; subst; exact Hinv].
+    destruct (s_live s) eqn:El; cbn [andb]; [|intros [E|[]]; inversion E; subst; exact Hinv].
+    destruct (s_started s); [apply step_ps_inv; auto|intros [E|[]]; inversion E; subst; exact Hinv].
+  - destruct (s_ppp s); cbn [andb]; [|intros [E|[]]; inversion E; subst; exact Hinv].
+    destruct (s_live s) eqn:El; cbn [andb]; [|intros [E|[]]; inversion E; subst; exact Hinv].
+    destruct (s_started s); [apply step_pr_inv; auto|intros [E|[]]; inversion E; subst; exact Hinv].
+  - destruct (s_ppp s); cbn [andb]; [|intros [E|[]]; inversion E; subst; exact Hinv].
+    destruct (s_live s) eqn:El; cbn [negb andb]; [intros [E|[]]; inversion E; subst; exact Hinv|].
+    destruct (x_du (s_x s)); [|intros [E|[]]; inversion E; subst; exact Hinv].
+    destruct (prov6_release Repaired (p6 (st_prov st)) (st_reg st) (s_mac s) (s_id s)) as [q1 r1] eqn:E6.
+    intros [E|[]]; inversion E; subst. eapply inv_reg_dead; [exact Hinv|exact Hin|exact El|].
+    eapply prov6_release_ok; exact E6.
 Qed.
 
 Lemma reach_inv st0 st : inv st0 -> reach Repaired st0 st -> inv st.
@@ -1402,15 +1529,6 @@ Definition Kd (r : reg) : Prop := K1 r /\ pools_disjoint r.
 Lemma Kd_shape r r' : same_shape r r' -> Kd r -> Kd r'.
 Proof. intros Hs [A B]. split; [eapply K1_shape|eapply pools_disjoint_shape]; eauto. Qed.
 
-Lemma nodup_map_inj {A B} (g : A -> B) (l : list A) a b :
-  NoDup (map g l) -> In a l -> In b l -> g a = g b -> a = b.
-Proof.
-  induction l as [|c r IH]; simpl; [tauto|].
-  intros Hn Ha Hb He. inversion Hn as [|? ? Hc Hr]; subst.
-  destruct Ha as [->|Ha], Hb as [->|Hb]; auto.
-  - exfalso. apply Hc. rewrite He. apply in_map; exact Hb.
-  - exfalso. apply Hc. rewrite <- He. apply in_map; exact Ha.
-Qed.
 
 Lemma told_is_recorded_all ps ss st :
   NoDup (map pool_id ps) -> Forall pool_wf ps -> kinds_ok (mkReg ps []) -> resettable (mkReg ps []) ->
@@ -1522,7 +1640,7 @@ Proof.
   assert (Hkeep : forall a, a = oaddr a4 -> recI
             (mkSess (s_id s0) false (s_prof4 s0) (s_prof6 s0) (s_mac s0) true true (s_vrf s0) (s_ov4 s0)
                     (s_ov6 s0) (s_ovd s0) a (s_a6 s0) (s_ad s0) None None (s_told s0) (s_ipcp s0)
-                    (s_b4 s0) (s_b6 s0) (s_bd s0))).
+                    (s_b4 s0) (s_b6 s0) (s_bd s0) (s_x s0))).
   { intros a ->. unfold recI; cbn. destruct (s_b4 s0) as [y|] eqn:Eb; [|left; reflexivity]. right.
     destruct (H0 Hp) as [E|[E1 E2]]; [congruence|]. split; [congruence|]. rewrite (Ha y eq_refl). reflexivity. }
   revert H. destruct (if ok then oaddr a4 else None) as [x|] eqn:Ex.
@@ -1530,7 +1648,7 @@ Proof.
     pose proof (prov_reserve_store _ _ _ _ _ _ _ _ _ _ Epr) as Es.
     assert (Hx : oaddr a4 = Some x) by (destruct ok; [exact Ex|discriminate]).
     destruct okp; intros [E|[]]; inversion E; subst; clear E.
-    + set (s2 := mkSess _ _ _ _ _ _ _ _ _ _ _ _ _ _ _ _ _ _ _ _ _).
+    + set (s2 := mkSess _ _ _ _ _ _ _ _ _ _ _ _ _ _ _ _ _ _ _ _ _ _).
       assert (R2 : recI s2).
       { subst s2. unfold recI; cbn. destruct bind; [right; split; [reflexivity|exact Hx]|].
         destruct (s_b4 s0) as [y|] eqn:Eb; [|left; reflexivity]. right.
@@ -1624,7 +1742,7 @@ Proof.
   assert (Hfind : forall sid s, find_sess sid st = Some s -> rec_ok s).
   { intros sid s Hf. unfold find_sess in Hf. apply find_in in Hf. destruct Hf as [Hf _].
     eapply Forall_forall in Hss; eauto. }
-  destruct o as [sid vrf s4 s6 spd o4 o6 od|sid a|sid|isreq bind rq sid vrf s4 o4|isreq sid vrf s6 spd o6 od|sid|sid| |sid|sid|sid|sid vrf s4 o4 s6 spd o6 od|sid|hf key hx sid|hf key hx sid].
+  destruct o as [sid vrf s4 s6 spd o4 o6 od|sid a|sid|isreq bind rq sid vrf s4 o4|isreq sid vrf s6 spd o6 od|sid|sid| |sid|sid|sid|sid vrf s4 o4 s6 spd o6 od|sid|hf key hx sid|hf key hx sid|isreq sid|sid|sid].
   8:{ unfold step_restart.
       destruct (fold_left (restore_one Repaired (store (st_prov st))) (st_sess st)
                   (mkReg (map reset_pool (pools (st_reg st))) [], [])) as [r2 ss] eqn:E.
@@ -1706,6 +1824,20 @@ Proof.
     apply rec_put; auto. apply store_unckpt_ok. cbn [store with_p6]. rewrite Es; exact Hst.
   - intros H. apply in_map_iff in H. destruct H as (c & E & _). inversion E; subst. split; [exact Hss|exact Hst].
   - intros H. apply in_map_iff in H. destruct H as (c & E & _). inversion E; subst. split; [exact Hss|exact Hst].
+  - destruct (s_ppp s) eqn:Ep; cbn [andb]; [|intros [E|[]]; inversion E; subst; exact Hinv].
+    destruct (s_live s && s_started s); [|intros [E|[]]; inversion E; subst; exact Hinv].
+    unfold step_ps. intros H. apply in_map_iff in H. destruct H as ([[[r2 c6] cd] res] & E & _).
+    destruct res as [[[[a6 ad] k6] kd]|]; [destruct (prov6_resolved _ _ _ _ _ _ _ _) as [q' [|]]; [destruct isreq|]|];
+      inversion E; subst; (apply rec_put; [exact Hinv|apply rec_ppp; exact Ep|exact Hst]).
+  - destruct (s_ppp s) eqn:Ep; cbn [andb]; [|intros [E|[]]; inversion E; subst; exact Hinv].
+    destruct (s_live s && s_started s); [|intros [E|[]]; inversion E; subst; exact Hinv].
+    unfold step_pr, bindl. intros H. apply in_flat_map in H. destruct H as ([[[r2 c6] cd] res] & _ & H).
+    destruct (prov6_release Repaired (p6 (st_prov st)) r2 (s_mac s) (s_id s)) as [q1 r3].
+    apply in_flat_map in H. destruct H as (r4 & _ & H). apply in_map_iff in H. destruct H as (r5 & E & _).
+    inversion E; subst. apply rec_put; [exact Hinv|apply rec_ppp; exact Ep|exact Hst].
+  - destruct (s_ppp s && negb (s_live s) && x_du (s_x s)); [|intros [E|[]]; inversion E; subst; exact Hinv].
+    destruct (prov6_release Repaired (p6 (st_prov st)) (st_reg st) (s_mac s) (s_id s)) as [q1 r1].
+    intros [E|[]]; inversion E; subst. split; [exact Hss|exact Hst].
 Qed.
 
 Lemma reach_rec st0 st : rec_inv st0 -> reach Repaired st0 st -> rec_inv st.
